@@ -237,6 +237,7 @@ class RDGridSpace :
         Returns the volume of the cell at the given position.
         """
 
+        self.get_cell_index(position) # raises if the position is not within the grid bounds
         return self.cell_vol.copy()
     
     def get_cell_env(self, position) :
